@@ -40,6 +40,7 @@ func runC08(c *Ctx) {
 	}
 	c08Panics(c)
 	ruleTypedNil(c, "panic-obligations")
+	ruleReadLockWrites(c, "panic-obligations")
 	c08AllocBound(c)
 	c08Discard(c)
 	c08NoExit(c)
